@@ -54,7 +54,7 @@ DO == INSTANCE DiffOps WITH c <- c, MaxN1 <- 5, MaxN2 <- 2, Emit <- FALSE
 \* ---------------------------------------------------------------------------
 \* pattern k of lattice L in dimension d: k <= Len(L) constant vectors, beyond that cyclic walks through L
 Pat(L, d, k) == F([i \in 1..d |-> IF k <= Len(L) THEN L[k] ELSE L[((i + k - Len(L) - 2) % Len(L)) + 1]])
-NPat(L, d)   == IF d = 1 THEN Len(L) ELSE Len(L) + (IF Thorough THEN 2 ELSE 1)
+NPat(L, d)   == IF d = 1 THEN Len(L) ELSE IF d = 3 /\ Thorough THEN Len(L) + 2 ELSE Len(L) + 1
 PatIdx(L, d, nq) == IF Thorough THEN 1..NPat(L, d)
                     ELSE (1..nq) \cup (IF d = 1 THEN {} ELSE {Len(L) + 1})
 IsConstV(v)  == \A i \in 1..Len(v) : v[i] = v[1]
@@ -512,9 +512,13 @@ LogLik(mk, A, B, lam, y, x)  == GaussLogpdf(ModelF(mk, A, B, x), NoiseCanon(lam)
 GradLik(mk, A, B, lam, y, x) ==
     MV(MT(ModelJ(mk, A, B, x)), MV(NoiseCanon(lam)[1], VSub(y, ModelF(mk, A, B, x))))
 
+\* quick tier: two noise patterns; the Lognormal data family only without prior and for three model kinds
 LikConfigs(fam) ==
-    UNION {{ Cfg(fam, na[1], na[2], b, g, x, o) : b \in PI(LLam, Len(LA(na[1], na[2]))), g \in (IF na[1] = 1 THEN {1, 3} ELSE 1..3),
-                                                   x \in PI(LInt, na[1]), o \in 1..5 }
+    UNION {{ Cfg(fam, na[1], na[2], b, g, x, o) :
+                 b \in (IF Thorough THEN PI(LLam, Len(LA(na[1], na[2]))) ELSE {2, Len(LLam) + 1} \cap PI(LLam, Len(LA(na[1], na[2])))),
+                 g \in (IF fam = "LikLognormal" /\ ~Thorough THEN {3} ELSE IF na[1] = 1 THEN {1, 3} ELSE 1..3),
+                 x \in PI(LInt, na[1]),
+                 o \in (IF fam = "LikLognormal" /\ ~Thorough THEN {1, 3, 5} ELSE 1..5) }
            : na \in {<<n, a>> \in Dims \X (1..2) : a <= NLA(n)}}
 
 PriorParts(k, x) ==      \* g = 1: Gaussian(mean, cov = 4);  2: GMRF(mean, 1, zero, order 1);  3: no prior
@@ -667,12 +671,19 @@ OutcomeTable ==
          /\ (~r[4] /\ r[1] \in NoGrad => o = "Refused")                \* refused where not available
          /\ (o = "ValueFD" => r[4])
 
+\* the rows are enumerated by index arithmetic (a recursion of depth 168 occasionally exhausted the Java stack)
+FamSeq  == <<"Normal", "Gaussian", "GMRF", "LMRF", "CMRF", "Laplace", "SmoothedLaplace", "Cauchy", "Gamma",
+             "InverseGamma", "Beta", "Lognormal", "Uniform", "ModifiedHalfNormal">>
+GeomSeq == <<"identity", "mapped", "withgradient">>
+ASSUME {FamSeq[i] : i \in 1..Len(FamSeq)} = Families_ /\ {GeomSeq[i] : i \in 1..3} = GeomKinds
 TableCase ==
-    LET rows == SetToSeq(TableRows)
-    IN [kind |-> "table",
-        rows |-> [i \in 1..Cardinality(TableRows) |->
-                    [fam |-> rows[i][1], cond |-> rows[i][2], geom |-> rows[i][3], fd |-> rows[i][4],
-                     outcome |-> GradOutcome(rows[i][1], rows[i][2], rows[i][3], rows[i][4])]]]
+    [kind |-> "table",
+     rows |-> [i \in 1..(12 * Len(FamSeq)) |->
+                 LET fam == FamSeq[((i - 1) \div 12) + 1]
+                     cond == (((i - 1) \div 6) % 2) = 1
+                     geom == GeomSeq[(((i - 1) \div 2) % 3) + 1]
+                     fd == ((i - 1) % 2) = 1
+                 IN [fam |-> fam, cond |-> cond, geom |-> geom, fd |-> fd, outcome |-> GradOutcome(fam, cond, geom, fd)]]]
 
 EmitCase ==
     Emit => /\ PrintT("@@CASE " \o ToJson(CaseOf(c)) \o " @@END")
